@@ -300,6 +300,43 @@ ROOT_TABLES = {
 }
 
 
+def _tab(xs, ys):
+    d = dict(zip(xs, ys))
+    return lambda x: d[x]
+
+
+def _grid_pts(xs):
+    """The abscissae themselves and points between them (search limits need not be tabulated values)."""
+    out = list(xs)
+    for a, b in zip(xs, xs[1:]):
+        out += [a + 0.5 * (b - a), a + 0.3 * (b - a)]
+    return out
+
+
+# measured-looking tables: flat, quintic-like data rounded to three decimals (steep ends, a long flat stretch around
+# the root), decaying and growing data whose interpolant wiggles BETWEEN the abscissae (an extremum pair, or a dip
+# through zero, that the tabulated values themselves do not show)
+_GEN = {}
+for _i, (_r, _a, _b) in enumerate([(2.7, 1.0, 0.0), (3.1, 0.3, 0.02), (3.45, 1.0, 0.02), (2.2, 0.3, 0.0), (3.9, 2.0, 0.01)]):
+    _xs = [0.0, 1.0, 2.0, 3.0, 4.0, 5.0, 6.0]
+    _GEN["rquintic%d" % _i] = (_xs, [round(_a * (x - _r) ** 5 + _b * (x - _r), 3) for x in _xs])
+_GEN["demo_flat1"] = ([0.0, 1.0, 2.0, 3.0, 4.0, 5.0, 6.0], [-104.965, -20.002, -1.566, 0.035, -0.033, 1.037, 15.863])
+_GEN["demo_flat2"] = ([0.0, 1.0, 2.0, 3.0, 4.0, 5.0, 6.0, 7.0], [-47.974, -1.342, -0.001, 1.401, 48.929, 372.199, 1567.202, 4779.132])
+_GEN["decay"] = ([0.0, 1.0, 2.0, 3.0, 4.0], [5.24, 2.80, 0.95, 0.44, 0.25])
+_GEN["growth"] = ([0.0, 1.0, 2.0, 3.0, 4.0], [0.11, 0.17, 0.40, 4.79, 6.75])
+for _i, (_A, _k, _c) in enumerate([(5.0, 0.9, 0.2), (7.0, 1.4, 0.05), (3.0, 0.6, -0.1)]):
+    _xs = [0.0, 1.0, 2.0, 3.0, 4.0]
+    _GEN["rdecay%d" % _i] = (_xs, [round(_A * math.exp(-_k * x) + _c, 2) for x in _xs])
+    _GEN["rgrowth%d" % _i] = (_xs, [round(0.1 * math.exp(_k * x) + _c, 2) for x in _xs])
+for _n, (_xs, _ys) in _GEN.items():
+    ROOT_TABLES[_n] = (_xs, _tab(_xs, _ys), _grid_pts(_xs))
+# Julian-day abscissae with brackets a few minutes wide around the root (narrower than 1e-9 of the abscissa)
+_jx = [2451545.0 + k for k in range(6)]
+ROOT_TABLES["jd_thin"] = (_jx, lambda x: 50.0 * (x - 2451547.3),
+                          [2451547.3 - 1e-4, 2451547.3 + 1e-4, 2451547.3 - 1e-3, 2451547.3 + 2e-3, 2451547.0, 2451548.0,
+                           2451545.0, 2451550.0, 2451547.3 - 3e-6, 2451547.3 + 5e-6])
+
+
 def judge_root(p, scale, lo, hi, call, label):
     """p: exact polynomial (list); [lo, hi]: clamped interval (Fractions).
     call(): performs the library call.  Returns list of (site, msg, dev)."""
